@@ -127,6 +127,12 @@ where
         self.initial_cluster_size
     }
 
+    /// A node that bootstrapped alone stops being a single-node cluster as soon as the
+    /// membership holds another voter: from then on it must win a real majority vote.
+    async fn is_single_node_cluster(&self) -> bool {
+        self.initial_cluster_size == 1 && self.voters().await.is_empty()
+    }
+
     async fn nodes_with_status(
         &self,
         status: NodeStatus,
